@@ -699,8 +699,14 @@ ECHO_GENERATORS = GENERATORS + [('wmba', gen_wmba)]
 
 def mutations(rng, good, n=6):
     """malformed stream for one good reply: prefixes, single-byte mutations over the boundary alphabet, extensions, zero padding"""
-    alpha = [0x00, 0x01, 0x02, 0x03, 0x04, 0x05, 0x06, 0x07, 0x08, 0x10, 0x40, 0x7F, 0x80, 0xF0, 0xFF]
+    alpha = [0x00, 0x01, 0x02, 0x03, 0x04, 0x05, 0x06, 0x07, 0x08, 0x09, 0x0A, 0x0F, 0x10, 0x40, 0x7F, 0x80, 0x90, 0xA0, 0xF0, 0xFF]
+    wide = [0x09, 0x0A, 0x0F, 0x90, 0xA0, 0xF0]     # a length field one past (and well past) the widest supported width, as a byte and as a high nibble
     out = []
+    # a field announced wider than the client supports, with enough bytes behind it that no length guard ends the parse first
+    for i in range(min(len(good), 6)):
+        b = bytearray(good)
+        b[i] = rng.choice(wide)
+        out.append(bytes(b) + bytes(rng.randrange(256) for _ in range(20)))
     if len(good) <= 40:
         out += [good[:i] for i in range(len(good))]      # every truncation point
     else:
